@@ -217,11 +217,11 @@ func (e *Env) segsTerm(segs []Seg) string {
 		for _, s := range segs {
 			switch s.K {
 			case "lit":
-				parts = append(parts, strconv.Itoa(len(s.Lit)))
+				parts = append(parts, bvLit(uint64(len(s.Lit)), 64))
 			case "be64":
-				parts = append(parts, "8")
+				parts = append(parts, bvLit(8, 64))
 			case "any":
-				parts = append(parts, tApp("slen", s.T))
+				parts = append(parts, tApp("slen64", s.T))
 			default:
 				okLen = false
 			}
@@ -230,11 +230,11 @@ func (e *Env) segsTerm(segs []Seg) string {
 		if okLen && len(parts) > 0 {
 			sum := parts[0]
 			if len(parts) > 1 {
-				sum = "(+ " + strings.Join(parts, " ") + ")"
+				sum = "(bvadd " + strings.Join(parts, " ") + ")"
 			}
-			facts = append(facts, tEq(tApp("slen", t), sum))
+			facts = append(facts, tEq(tApp("slen64", t), sum))
 		} else {
-			facts = append(facts, tApp(">", tApp("slen", t), "0"))
+			facts = append(facts, tNot(tEq(tApp("slen64", t), bvLit(0, 64))))
 		}
 		facts = append(facts, tNot(tEq(t, "nilStr")))
 		if len(segs) == 1 && segs[0].K == "be64" {
@@ -323,7 +323,7 @@ func (e *Env) segsRel(a, b []Seg, prefixMode bool) (formula string, hyps []strin
 			for _, s := range rest {
 				switch s.K {
 				case "any":
-					conj = append(conj, tEq(tApp("slen", s.T), "0"))
+					conj = append(conj, tEq(tApp("slen64", s.T), bvLit(0, 64)))
 				default:
 					return "false", hyps, true
 				}
@@ -588,10 +588,13 @@ func (e *Env) keyAxioms(body string) []string {
 			}
 		}
 	}
+	// universally quantified disjointness of whole key families (needed when key terms occur under binders):
+	// two shapes whose skeletons can never coincide, whatever the variable pieces are
+	out = append(out, e.shapeFamilyAxioms(body)...)
 	// drop facts mentioning quantifier-bound variables (they are only meaningful under their binder)
 	var keep []string
 	for _, f := range out {
-		if !e.mentionsBound(f) {
+		if strings.HasPrefix(f, "(forall (") || !e.mentionsBound(f) {
 			keep = append(keep, f)
 		}
 	}
@@ -700,4 +703,84 @@ func sortStrings(xs []string) {
 			xs[j], xs[j-1] = xs[j-1], xs[j]
 		}
 	}
+}
+
+// shapeFamilyAxioms: for every pair of shape functions occurring in body whose skeletons differ in a way that
+// does not depend on the variable pieces (e.g. different literal prefixes), (forall args. shapeA(..) != shapeB(..)).
+func (e *Env) shapeFamilyAxioms(body string) []string {
+	type fam struct {
+		name string
+		segs []Seg
+	}
+	var fams []fam
+	seen := map[string]bool{}
+	for t, segs := range e.keyTerms {
+		i := strings.IndexByte(t, ' ')
+		if !strings.HasPrefix(t, "(shape") || i < 0 {
+			continue
+		}
+		name := t[1:i]
+		if seen[name] || !strings.Contains(body, "("+name+" ") {
+			continue
+		}
+		seen[name] = true
+		fams = append(fams, fam{name, segs})
+	}
+	sortFams := func() {
+		for i := 1; i < len(fams); i++ {
+			for j := i; j > 0 && fams[j].name < fams[j-1].name; j-- {
+				fams[j], fams[j-1] = fams[j-1], fams[j]
+			}
+		}
+	}
+	sortFams()
+	generic := func(f fam, tag string) ([]Seg, []string, string) {
+		var segs []Seg
+		var binders, args []string
+		n := 0
+		for _, s := range f.segs {
+			if s.K == "lit" {
+				segs = append(segs, s)
+				continue
+			}
+			n++
+			v := fmt.Sprintf("%s%d", tag, n)
+			sort := sStr
+			switch s.K {
+			case "dec":
+				sort = bvSort(s.W)
+			case "be64":
+				sort = bvSort(64)
+			}
+			binders = append(binders, fmt.Sprintf("(%s %s)", v, sort))
+			args = append(args, v)
+			ns := s
+			ns.T = v
+			segs = append(segs, ns)
+		}
+		return segs, binders, "(" + f.name + " " + strings.Join(args, " ") + ")"
+	}
+	var out []string
+	for i := 0; i < len(fams); i++ {
+		a, ba, ta := generic(fams[i], "ga!q")
+		for j := i + 1; j < len(fams); j++ {
+			b, bb, tb := generic(fams[j], "gb!q")
+			f, hyps, ok := e.segsEqualH(a, b)
+			if ok && f == "false" && len(hyps) == 0 {
+				out = append(out, fmt.Sprintf("(forall (%s) (not (= %s %s)))", strings.Join(append(ba, bb...), " "), ta, tb))
+			}
+		}
+		// against literal constants present
+		ids := identSet(body)
+		for _, content := range e.D.litOrder {
+			if !ids[e.D.lits[content]] {
+				continue
+			}
+			f, hyps, ok := e.segsEqualH(a, litSegs(content))
+			if ok && f == "false" && len(hyps) == 0 && len(ba) > 0 {
+				out = append(out, fmt.Sprintf("(forall (%s) (not (= %s %s)))", strings.Join(ba, " "), ta, e.D.lits[content]))
+			}
+		}
+	}
+	return out
 }
